@@ -188,6 +188,10 @@ func (r *ingressController) buildCanaryIngress(stableIngress *netv1.Ingress) *ne
 	for ir := 0; ir < len(stableIngress.Spec.Rules); ir++ {
 		var hasStableServiceBackendRule bool
 		stableRule := stableIngress.Spec.Rules[ir]
+		// A rule without an http section (host-only rule) has no paths that could reference the stableService
+		if stableRule.HTTP == nil {
+			continue
+		}
 		canaryRule := netv1.IngressRule{
 			Host: stableRule.Host,
 			IngressRuleValue: netv1.IngressRuleValue{
@@ -196,6 +200,10 @@ func (r *ingressController) buildCanaryIngress(stableIngress *netv1.Ingress) *ne
 		}
 		// Update all backends pointing to the stableService to point to the canaryService now
 		for ip := 0; ip < len(stableRule.HTTP.Paths); ip++ {
+			// Only service backends can reference the stableService, resource backends are ignored
+			if stableRule.HTTP.Paths[ip].Backend.Service == nil {
+				continue
+			}
 			if stableRule.HTTP.Paths[ip].Backend.Service.Name == r.conf.StableService {
 				hasStableServiceBackendRule = true
 				if stableRule.Host != "" {
